@@ -563,6 +563,27 @@ pub fn run_negation(ctx: &mut Ctx) {
     });
 }
 
+/// The regular-expression functions on a complete grid: every pattern of the pool x 12 short
+/// subjects x groups 0..3 (and `match`), so that a pattern class meets every subject it was made
+/// for (the per-signature pools are sampled above a cap, which a pair of rare members can miss).
+pub fn run_regex_grid(ctx: &mut Ctx) {
+    let pats = crate::pools::regex_wide();
+    const SUBJECTS: [&str; 12] = ["ab", "aab", "bab", "a b", "xfoo bar", "hello world", "aaa", "b", "", "2024-x", "ab ab", "a\u{e9}b"];
+    let total = (pats.len() * SUBJECTS.len() * 5) as u64;
+    let space = format!("all {} pool patterns x {} subjects x (match, extract_regex_group 0..3)", pats.len(), SUBJECTS.len());
+    run_enum(ctx, "C04.regex_grid", total, &space, |idx| {
+        let g = idx % 5;
+        let sub = SUBJECTS[((idx / 5) % SUBJECTS.len() as u64) as usize];
+        let pat = &pats[(idx / 5 / SUBJECTS.len() as u64) as usize];
+        let mut st = String::new();
+        write_json_string_utf8(sub, &mut st);
+        let e = if g == 4 { Expr::call("match", vec![Expr::Lit(st), Expr::Lit(pat.clone())]) } else { Expr::call("extract_regex_group", vec![Expr::Lit(st), Expr::Lit(pat.clone()), Expr::Lit(g.to_string())]) };
+        let case = Case04 { e, vars: vec![], macros: vec![], priors: vec![], inputs: vec!["null".to_string()], spell: Spell { alias: idx % 7 == 3, sep: (idx % 3) as u8, sugar: false, pad: false, seed: idx } };
+        let res = C04Eval.check(&case);
+        (Box::new(move || serde_json::to_value(&case).unwrap()), res)
+    });
+}
+
 pub fn run_all(ctx: &mut Ctx) {
     ctx.rule = "expressions whose root is one of the 108 pure functions (stratified: each function and each of its signatures equally often), depth 1, 3 or 5, type-directed arguments with 3/16 ill-typed, boundary-biased sizes (N = size-1, size, size+1, 0), literals of all six types incl. empty/singleton collections and non-ASCII strings, extractors . .k #i ^, :var, @macro (--set), /name/ (earlier selections), printed with canonical names or aliases and space/comma separators x 1..3 inputs (schema records with absent and wrong-typed fields, or arbitrary values). Oracle: the reference evaluator written from the function documentation; unspecified points (string length unit for non-ASCII, order of different objects, tail, float indices, empty separators, ...) are not judged, floating-point results within relative 1e-12, member order of records synthesised by entries/indexed/fold/zip/cross not compared. non-trivial = at least one input was judged (expected value or expected nothing). C04.pools: every function signature called directly with literal arguments from wide per-kind pools (harness/src/pools.rs: 77 numbers incl. 1e-300, 2^53+-1, 2^63, 2^64-1; 58 strings incl. regex metacharacters and 65-byte strings with a common 64-byte prefix; 67 patterns; lists of 21, 33 and 40 elements; objects that differ in member order; lambda bodies that return nothing for some elements), the whole product when it is below the cap (2600 quick, 60000 thorough per signature), a seeded sample otherwise. C04.paths: extractor paths (.k, .k1.k2, .k#1.k, ^.k1.k2 inside a lambda) over all ordered pairs of 25 member names of every shape the path syntax admits (non-ASCII, punctuation, digits); same oracle. C04.times: parse_time / parse_time_with_zone over a grid of 245 date-times x 8 fractions / 7 zones in the three layouts the reference decides, format_time over 16 instants x every format of the pool. C04.big_collections: ten expressions over lists of 1.1 to 1.2 million elements (sizes, take / take_last / sub / get beyond 2^20) and thirteen calls of variadic functions with 12 to 33 arguments. C04.negation: != is the negation of = (and symmetric) on all pairs of a value pool, also where the value of = itself is left open; the same for \"=\" / \"!=\". C04.nas_sort: the number-as-string sort and its three aliases on up to 160 elements whose keys come from 16 value classes with several spellings each; oracle: stable sort by exact decimal value, elements without a key first (the documented example)".into();
     ctx.assumptions = vec!["the reference evaluator (harness/src/eval.rs) states the documentation correctly; a disagreement is first treated as a possible harness error".into()];
@@ -570,11 +591,12 @@ pub fn run_all(ctx: &mut Ctx) {
     run_pools(ctx);
     run_paths(ctx);
     run_times(ctx);
+    run_regex_grid(ctx);
     run_big_collections(ctx);
     run_negation(ctx);
     crate::p07::C07NasSort.run(ctx);
 }
 
 pub fn checks() -> Vec<Box<dyn DynCheck>> {
-    vec![Box::new(C04Eval), Box::new(C04Pools), Box::new(C04Paths), Box::new(C04Times), Box::new(C04Named("C04.big_collections")), Box::new(C04Negation), Box::new(crate::p07::C07NasSort)]
+    vec![Box::new(C04Eval), Box::new(C04Pools), Box::new(C04Paths), Box::new(C04Times), Box::new(C04Named("C04.big_collections")), Box::new(C04Named("C04.regex_grid")), Box::new(C04Negation), Box::new(crate::p07::C07NasSort)]
 }
